@@ -228,8 +228,11 @@ func gen(tier string, rng *h.Rng, emit func(string)) {
 	prices := []string{"0", "1", "20000000000", "5000000000", "9223372036854775807"}
 	limits := []string{"21000", "800000", "5000000", "4700000"}
 	// every (price before, price set, reconnect?) triple once
+	// prices SET through SetGasPrice: also 2^63 and 2^64-1 (the uint64 field holds them; Connect converted through int64
+	// until /repo 21a9d40 — review E #6); the configured start price is read with strconv.Atoi: at most 2^63-1
+	setPrices := append(append([]string{}, prices...), "9223372036854775808", "18446744073709551615")
 	for _, p0 := range prices {
-		for _, p1 := range prices {
+		for _, p1 := range setPrices {
 			emit(fmt.Sprintf("cfg 5000000 %s 1 tx:acc gp:%s tx:acc re tx:acc re tx:acc", p0, p1))
 			emit(fmt.Sprintf("cfg 5000000 %s 56 gp:%s gl:%s re tx:nonce,acc tx:acc,acc re tx:acc,acc", p0, p1, limits[rng.Intn(len(limits))]))
 		}
@@ -244,7 +247,7 @@ func gen(tier string, rng *h.Rng, emit func(string)) {
 		for k := 2 + rng.Intn(7); k > 0; k-- {
 			switch rng.Intn(5) {
 			case 0:
-				ops = append(ops, "gp:"+prices[rng.Intn(len(prices))])
+				ops = append(ops, "gp:"+setPrices[rng.Intn(len(setPrices))])
 			case 1:
 				ops = append(ops, "gl:"+limits[rng.Intn(len(limits))])
 			case 2:
@@ -290,6 +293,14 @@ func gen(tier string, rng *h.Rng, emit func(string)) {
 			continue
 		}
 		emit(fmt.Sprintf("pk %s %s", h.Hex(mar), k))
+	}
+	// a completed key generation's group key through the real registerGroup stage into the adaptor (review E #4)
+	grps := [][2]string{{"3", "1"}, {"4", "115792089237316195423570985008687907853269984665640564039457584007913129639935"}}
+	if tier == "thorough" {
+		grps = append(grps, [2]string{"3", "255"}, [2]string{"5", "4294967296"}, [2]string{"4", "7"}, [2]string{"3", "340282366920938463463374607431768211456"})
+	}
+	for _, g := range grps {
+		emit(fmt.Sprintf("grp %s %s", g[0], g[1]))
 	}
 	// concurrent callers on one adaptor: the queue serialises them, accepted nonces are consecutive (review E #10)
 	for _, kk := range [][2]int{{1, 7}, {2, 7}, {3, 0}, {8, 7}, {16, 1000}, {32, 4294967290}} {
